@@ -20,6 +20,9 @@ import (
 	"errors"
 	"fmt"
 	"net"
+	"net/http"
+	"path"
+	"strconv"
 	"strings"
 	"sync"
 	"time"
@@ -27,16 +30,25 @@ import (
 	"github.com/youzan/ZanRedisDB/common"
 	"github.com/youzan/ZanRedisDB/node"
 	"github.com/youzan/ZanRedisDB/pkg/wait"
+	"github.com/youzan/ZanRedisDB/raft/raftpb"
+	"github.com/youzan/ZanRedisDB/rockredis"
 	"github.com/youzan/ZanRedisDB/syncerpb"
 	"google.golang.org/grpc"
 	"verif/harness/internal/hx"
 )
 
-type fixedCluster struct{ name string }
+type fixedCluster struct {
+	name     string
+	httpPort string // a stand-in for the source replica that holds the snapshot's backup (answers /cluster/checkbackup)
+}
 
 func (f fixedCluster) GetClusterName() string { return f.name }
 func (f fixedCluster) GetSnapshotSyncInfo(fullNS string) ([]common.SnapshotSyncInfo, error) {
-	return nil, errors.New("no snapshot sync in this harness")
+	if f.httpPort == "" {
+		return nil, errors.New("no snapshot sync in this harness")
+	}
+	return []common.SnapshotSyncInfo{{ReplicaID: 99, NodeID: 99, RemoteAddr: "127.0.0.1", HttpAPIPort: f.httpPort,
+		DataRoot: "/verif-nonexistent", RsyncModule: "verifmod"}}, nil
 }
 func (f fixedCluster) UpdateMeForNamespaceLeader(fullNS string) (bool, error) { return true, nil }
 
@@ -54,6 +66,13 @@ type proxy struct {
 	faults  int
 	broken  string
 	calls   int
+	// snapshot hand-over
+	src        map[int][]sent  // the source logs (to name a snapshot by its position and to build its checkpoint)
+	handover   bool            // a hand-over is in progress: no receiver crash now (see runE)
+	restarted  bool            // the receiver has been crashed at least once in this run
+	copied     map[string]bool // checkpoints already copied into the receiver's remote backup directory
+	skipCopy   int             // how many transfer notifications still "fail to bring the files"
+	snapFaults int
 }
 
 func (p *proxy) dial() {
@@ -70,10 +89,18 @@ func (p *proxy) dial() {
 }
 
 func (p *proxy) observe(op, res string) {
+	p.observeG(op, res, "")
+}
+
+// observeG: g = the GetApplySnapStatus answer asked right after a snapshot request (as runB does on replay)
+func (p *proxy) observeG(op, res, g string) {
 	o, err := p.l.ask(fmt.Sprintf("O %s %d", p.pre, p.maxc))
 	if err != nil {
 		p.broken = "observe: " + err.Error()
 		return
+	}
+	if g != "" {
+		o = strings.TrimSuffix(o, "-") + g
 	}
 	p.ops = append(p.ops, op)
 	p.obs = append(p.obs, res+";"+o)
@@ -95,7 +122,9 @@ func (p *proxy) ApplyRaftReqs(ctx context.Context, in *syncerpb.RaftReqs) (*sync
 		case x < 80:
 			fault = 2 // request lost
 		case x < 90:
-			fault = 3 // receiver crash before the call
+			if !p.handover {
+				fault = 3 // receiver crash before the call
+			}
 		default:
 			fault = 4 // snapshot before the call
 		}
@@ -113,6 +142,7 @@ func (p *proxy) ApplyRaftReqs(ctx context.Context, in *syncerpb.RaftReqs) (*sync
 			return nil, errors.New("proxy broken")
 		}
 		p.dial()
+		p.restarted = true
 		p.observe("R:1", "ok")
 	}
 	if fault == 4 {
@@ -196,14 +226,146 @@ func (p *proxy) GetSyncedRaft(ctx context.Context, in *syncerpb.SyncedRaftReq) (
 	return nil, err
 }
 
-func (p *proxy) NotifyTransferSnap(context.Context, *syncerpb.RaftApplySnapReq) (*syncerpb.RpcErr, error) {
-	return nil, errors.New("not in this harness")
+// snapPoint: which source entry (1-based position) a snapshot request is about
+func (p *proxy) snapPoint(req *syncerpb.RaftApplySnapReq) (int, int, bool) {
+	if !strings.HasPrefix(req.ClusterName, p.pre+"c") || req.RaftGroupName != liveGroup {
+		return 0, 0, false
+	}
+	c := int(atoiU(strings.TrimPrefix(req.ClusterName, p.pre+"c")))
+	for k, e := range p.src[c] {
+		if e.t == req.Term && e.i == req.Index {
+			return c, k + 1, true
+		}
+	}
+	return 0, 0, false
 }
-func (p *proxy) NotifyApplySnap(context.Context, *syncerpb.RaftApplySnapReq) (*syncerpb.RpcErr, error) {
-	return nil, errors.New("not in this harness")
+
+func (p *proxy) snapFault() int {
+	if p.snapFaults >= 4 {
+		return 0
+	}
+	switch x := p.r.Pick(100); {
+	case x < 70:
+		return 0
+	case x < 85:
+		p.snapFaults++
+		return 1 // response lost
+	default:
+		p.snapFaults++
+		return 2 // request lost
+	}
 }
-func (p *proxy) GetApplySnapStatus(context.Context, *syncerpb.RaftApplySnapStatusReq) (*syncerpb.RaftApplySnapStatusRsp, error) {
-	return nil, errors.New("not in this harness")
+
+func (p *proxy) askG(c int, term, index uint64) string {
+	if p.restarted {
+		return ""
+	}
+	g, err := p.l.ask(fmt.Sprintf("G %s %d %d %d", p.pre, c, term, index))
+	if err != nil {
+		p.broken = "status: " + err.Error()
+		return ""
+	}
+	return g
+}
+
+// NotifyTransferSnap: the proxy also plays the file transfer (the receiver runs with ignore_remote_file_sync): it
+// copies a real checkpoint of the source's first k entries into the receiver's remote backup directory - except
+// that the first skipCopy notifications "fail to bring the files", so that the apply request fails and is retried.
+func (p *proxy) NotifyTransferSnap(ctx context.Context, req *syncerpb.RaftApplySnapReq) (*syncerpb.RpcErr, error) {
+	p.mu.Lock()
+	defer p.mu.Unlock()
+	if p.broken != "" {
+		return nil, errors.New("proxy broken")
+	}
+	c, k, ok := p.snapPoint(req)
+	if !ok {
+		p.broken = "transfer notification for an unknown snapshot " + req.String()
+		return nil, errors.New("proxy broken")
+	}
+	if c > p.maxc {
+		p.maxc = c
+	}
+	p.handover = true
+	f := p.snapFault()
+	if f == 2 {
+		return nil, errors.New("injected: request lost")
+	}
+	key := fmt.Sprintf("%d.%d", req.Term, req.Index)
+	if p.skipCopy > 0 {
+		p.skipCopy--
+	} else if !p.copied[key] {
+		to := path.Join(rockredis.GetBackupDirForRemote(path.Join(p.l.dir, liveGroup)), rockredis.GetCheckpointDir(req.Term, req.Index))
+		if err := copySourceCheckpointFrom(p.l.eng, p.pre, p.src[c][:k], req.Term, req.Index, to, req.SyncAddr+req.SyncPath); err != nil {
+			p.broken = "copy checkpoint: " + err.Error()
+			return nil, errors.New("proxy broken")
+		}
+		p.copied[key] = true
+	}
+	c2, cancel := context.WithTimeout(context.Background(), 10*time.Second)
+	rsp, err := p.cli.NotifyTransferSnap(c2, req)
+	cancel()
+	if err != nil {
+		p.broken = "forward transfer: " + err.Error()
+		return nil, errors.New("proxy broken")
+	}
+	res := "ok"
+	if rsp.ErrCode != 0 || rsp.ErrMsg != "" {
+		res = "err"
+	}
+	p.observeG(fmt.Sprintf("T:%d:%d", c, k), res, p.askG(c, req.Term, req.Index))
+	if f == 1 {
+		return nil, errors.New("injected: response lost")
+	}
+	return rsp, nil
+}
+
+func (p *proxy) NotifyApplySnap(ctx context.Context, req *syncerpb.RaftApplySnapReq) (*syncerpb.RpcErr, error) {
+	p.mu.Lock()
+	defer p.mu.Unlock()
+	if p.broken != "" {
+		return nil, errors.New("proxy broken")
+	}
+	c, k, ok := p.snapPoint(req)
+	if !ok || req.Type == syncerpb.SkippedSnap {
+		p.broken = "apply notification not expected in this harness " + req.String()
+		return nil, errors.New("proxy broken")
+	}
+	f := p.snapFault()
+	if f == 2 {
+		return nil, errors.New("injected: request lost")
+	}
+	fl := "x"
+	if p.copied[fmt.Sprintf("%d.%d", req.Term, req.Index)] {
+		fl = "-"
+	}
+	c2, cancel := context.WithTimeout(context.Background(), 10*time.Second)
+	rsp, err := p.cli.NotifyApplySnap(c2, req)
+	cancel()
+	if err != nil {
+		p.broken = "forward apply: " + err.Error()
+		return nil, errors.New("proxy broken")
+	}
+	res := "ok"
+	if rsp.ErrCode != 0 || rsp.ErrMsg != "" {
+		res = "err"
+	}
+	// on replay (kind B) a P op with '-' copies the checkpoint itself, with 'x' it relies on an earlier copy
+	p.observeG(fmt.Sprintf("P:%d:%d:%s", c, k, fl), res, p.askG(c, req.Term, req.Index))
+	if f == 1 {
+		return nil, errors.New("injected: response lost")
+	}
+	return rsp, nil
+}
+
+func (p *proxy) GetApplySnapStatus(ctx context.Context, req *syncerpb.RaftApplySnapStatusReq) (*syncerpb.RaftApplySnapStatusRsp, error) {
+	p.mu.Lock()
+	defer p.mu.Unlock()
+	if p.broken != "" {
+		return nil, errors.New("proxy broken")
+	}
+	c2, cancel := context.WithTimeout(context.Background(), 5*time.Second)
+	defer cancel()
+	return p.cli.GetApplySnapStatus(c2, req)
 }
 
 func (p *proxy) syncedIndex(c int) uint64 {
@@ -221,13 +383,13 @@ func (p *proxy) syncedIndex(c int) uint64 {
 	return rsp.Index
 }
 
-func newSyncerSM(cluster string, proxyAddr string) (node.StateMachine, error) {
+func newSyncerSM(cluster string, proxyAddr string, httpPort string) (node.StateMachine, error) {
 	mc := node.MachineConfig{
-		BroadcastAddr:     "127.0.0.1",
+		BroadcastAddr:     "127.0.0.2",
 		LearnerRole:       common.LearnerRoleLogSyncer,
 		RemoteSyncCluster: "test://" + proxyAddr,
 	}
-	sm, err := node.NewStateMachine(&node.KVOptions{}, mc, 7, liveGroup, fixedCluster{cluster}, wait.New(), node.NewSlowLimiter(liveGroup))
+	sm, err := node.NewStateMachine(&node.KVOptions{}, mc, 7, liveGroup, fixedCluster{cluster, httpPort}, wait.New(), node.NewSlowLimiter(liveGroup))
 	if err != nil {
 		return nil, err
 	}
@@ -235,17 +397,41 @@ func newSyncerSM(cluster string, proxyAddr string) (node.StateMachine, error) {
 }
 
 // runE returns (case ops in kind-B syntax, observations) or an error (inconclusive).
-func runE(l *live, pre string, r *hx.Rng) (string, string, error) {
+func runE(l *live, pre string, r *hx.Rng, withSnap bool) (string, string, error) {
 	k := 1 + r.Pick(2)
+	if withSnap {
+		k = 1 // a remote snapshot replaces the whole store: one source
+	}
 	src := make([][]sent, k+1)
-	px := &proxy{l: l, pre: pre, r: r, payload: map[string]uint64{}}
+	px := &proxy{l: l, pre: pre, r: r, payload: map[string]uint64{}, src: map[int][]sent{}, copied: map[string]bool{}}
 	for c := 1; c <= k; c++ {
 		src[c] = genSource(r, c)
+		px.src[c] = src[c]
 		for _, e := range src[c] {
 			px.payload[fmt.Sprintf("%d.%d", c, e.i)] = e.p
 		}
 	}
 	px.dial()
+	httpPort := ""
+	handAt, handTo := -1, 0
+	if withSnap {
+		// the stand-in for the source replica holding the snapshot's backup: answers the check-backup request
+		hl, herr := net.Listen("tcp", "127.0.0.1:0")
+		if herr != nil {
+			return "", "", herr
+		}
+		hs := &http.Server{Handler: http.HandlerFunc(func(w http.ResponseWriter, rq *http.Request) { w.WriteHeader(200) })}
+		go hs.Serve(hl)
+		defer hs.Close()
+		httpPort = strconv.Itoa(hl.Addr().(*net.TCPAddr).Port)
+		// the learner falls behind once: after handAt fed entries its raft sends it the snapshot covering handTo entries
+		n := len(src[1])
+		handAt = r.Pick(n)
+		handTo = handAt + 1 + r.Pick(n-handAt)
+		if r.Chance(0.4) {
+			px.skipCopy = 1
+		}
+	}
 	var ln net.Listener
 	var err error
 	pport := 0
@@ -273,7 +459,7 @@ func runE(l *live, pre string, r *hx.Rng) (string, string, error) {
 	stop := make(chan struct{})
 	sms := make([]node.StateMachine, k+1)
 	for c := 1; c <= k; c++ {
-		sms[c], err = newSyncerSM(pre+clusterName(c), paddr)
+		sms[c], err = newSyncerSM(pre+clusterName(c), paddr, httpPort)
 		if err != nil {
 			return "", "", err
 		}
@@ -316,12 +502,45 @@ func runE(l *live, pre string, r *hx.Rng) (string, string, error) {
 			if from < next[c] {
 				next[c] = from
 			}
-			sms[c], err = newSyncerSM(pre+clusterName(c), paddr)
+			sms[c], err = newSyncerSM(pre+clusterName(c), paddr, httpPort)
 			if err != nil {
 				return "", "", err
 			}
 			restarts++
 			burst = 3 + r.Pick(4) // the replayed entries are queued together while the new send loop asks for the remote position
+			continue
+		}
+		if withSnap && next[c] == handAt && handAt >= 0 {
+			// the learner's raft hands it a snapshot: the real PrepareSnapshot (wait for the buffered logs, check the
+			// remote position, find the backup, NotifyTransferSnap, poll, NotifyApplySnap, poll); on an error the
+			// learner would stop and come back: the state machine is rebuilt and the snapshot handed over again
+			handAt = -1
+			e := src[c][handTo-1]
+			var snap raftpb.Snapshot
+			snap.Metadata.Term, snap.Metadata.Index = e.t, e.i
+			okHand := false
+			for try := 0; try < 4 && !okHand; try++ {
+				herr := sms[c].PrepareSnapshot(snap, stop)
+				if herr == nil {
+					herr = sms[c].RestoreFromSnapshot(snap, stop)
+				}
+				if herr == nil {
+					okHand = true
+					break
+				}
+				sms[c].Close()
+				sms[c], err = newSyncerSM(pre+clusterName(c), paddr, httpPort)
+				if err != nil {
+					return "", "", err
+				}
+			}
+			px.mu.Lock()
+			px.handover = false
+			px.mu.Unlock()
+			if !okHand {
+				return "", "", errors.New("snapshot hand-over did not complete in 4 attempts")
+			}
+			next[c] = handTo
 			continue
 		}
 		e := src[c][next[c]]
@@ -375,7 +594,15 @@ func runE(l *live, pre string, r *hx.Rng) (string, string, error) {
 	if px.broken != "" {
 		return "", "", errors.New("proxy: " + px.broken)
 	}
-	ops := append([]string{}, px.ops...)
+	var ops []string
+	if withSnap {
+		var es []string
+		for _, e := range src[1] {
+			es = append(es, fmt.Sprintf("%d.%d.%d.%d", e.t, e.i, e.ts, e.p))
+		}
+		ops = append(ops, "W:1:"+strings.Join(es, ","))
+	}
+	ops = append(ops, px.ops...)
 	obs := append([]string{}, px.obs...)
 	for c := 1; c <= k; c++ {
 		var es []string
